@@ -39,7 +39,10 @@ type c18Scenario struct {
 	Hosts []string `json:"hosts,omitempty"` // Host header of each key (parallel to Keys; c18.test when absent)
 	// Store: both caches persist into a store whose delete takes a few milliseconds (as a remote store's would)
 	Store bool `json:"store,omitempty"`
-	Ops  []c18Op  `json:"ops"`
+	// Recreate: before the history starts the caches are served once, dropped by a reload that
+	// parks the servers on another cache, and brought back under the same names by a further reload
+	Recreate bool    `json:"recreate,omitempty"`
+	Ops      []c18Op `json:"ops"`
 }
 
 var (
@@ -55,7 +58,7 @@ var c18Addrs = [2]string{"127.0.0.5:0", "127.0.0.6:0"}
 var c18URIs = []string{"/long?q=" + strings.Repeat("0123456789abcdef", 100), "/long?q=" + strings.Repeat("0123456789abcdef", 100) + "&x=1", "/plain", "/with%20space", "/q?a=1&b=2", "/q?a=1%26b=2", "/plus+sign?x=a+b", "/uni/%E2%9C%93?k=%C3%A9", "/pct%25", "/q?b=2&a=1", "/hash%23frag", "/semi;colon?x=y;z", "/eq=sign?=", "/q?a=1&b=2&"}
 
 func genC18e2e(t *rapid.T) c18Scenario {
-	sc := c18Scenario{Store: rapid.Bool().Draw(t, "store")}
+	sc := c18Scenario{Store: rapid.Bool().Draw(t, "store"), Recreate: rapid.IntRange(0, 2).Draw(t, "recreate") == 0}
 	n := rapid.IntRange(2, 4).Draw(t, "nKeys")
 	seen := map[string]bool{}
 	// the Host header is part of the key exactly as the client sent it
@@ -137,6 +140,31 @@ func execC18e2e(sc c18Scenario) *vstat.Outcome {
 	if err := applyConfig(cfg); err != nil {
 		out.Inconclusive = true
 		return out
+	}
+	if sc.Recreate {
+		// each server answers one cacheable request from its cache, then a reload leaves only
+		// a parking cache (the two caches disappear), then the first configuration comes back
+		for i := range c18Addrs {
+			warm := fmt.Sprintf("c18-%d-warm", n)
+			c18Up.setSpec(warm, &respSpec{Status: 200, Headers: [][2]string{{"Cache-Control", "max-age=300"}, {"Content-Type", "text/plain"}}, Body: []byte("warm")})
+			_ = do(c18Cl, reqSpec{Method: "GET", Addr: listenAddr(c18Addrs[i]), Host: "c18.test", URI: fmt.Sprintf("/c18-%d/warm", n), Header: http.Header{"X-Spec": []string{warm}}})
+			c18Up.mu.Lock()
+			delete(c18Up.specs, warm)
+			c18Up.mu.Unlock()
+		}
+		park := fmt.Sprintf("c18park-%d", n)
+		parked := *cfg
+		parked.Caches = []config.CacheConfig{{Name: park, Size: 10, HitForPass: "5m"}}
+		parked.Servers = []config.ServerConfig{{Addr: c18Addrs[0], Locations: []string{"c18loc"}, Cache: park}, {Addr: c18Addrs[1], Locations: []string{"c18loc"}, Cache: park}}
+		if err := applyConfig(&parked); err != nil {
+			out.Inconclusive = true
+			return out
+		}
+		if err := applyConfig(cfg); err != nil {
+			out.Inconclusive = true
+			return out
+		}
+		out.Class("caches_dropped_and_recreated_before_the_history")
 	}
 	addrs := [2]string{listenAddr(c18Addrs[0]), listenAddr(c18Addrs[1])}
 	spec := fmt.Sprintf("c18-%d", n)
